@@ -31,6 +31,10 @@ CHECKS = {
    "rapid-generated comparable key types (nested to depth 3) with adversarial key pools and rapid-generated operation histories (insert, overwrite, op-assign, delete, lookup, comma-ok, len, clear-by-range, range with deletion, nil maps, unhashable dynamic keys); len and an order-insensitive digest after every step are compared with the native run, range semantics through in-program invariants",
    "trusts the native Go toolchain as reference; digests use a generated per-type renderer, so two keys that render equally but differ would only be noticed through len",
    "property-based differential testing of generated operation histories (rapid) with native Go as oracle"),
+ "C13": ("exploration",
+   "table programs over boundary grids and rapid-drawn arguments for the exactly defined math functions, math/bits and sync/atomic; documented special cases of the JavaScript-delegating math functions; unicode case mapping/folding/predicates for every rune; rapid-generated sequential histories over sync/atomic values and over the nosync primitives (native side runs the real sync package, contended operations predicted by a model must panic) - all compared with the native run",
+   "trusts the native Go toolchain (upstream implementations) as reference; transcendental functions are compared only on documented special cases; int/uint/uintptr-width-dependent arguments are excluded",
+   "property-based differential testing (rapid-generated argument tables and operation histories, exhaustive rune enumeration) with native Go as oracle"),
 }
 PENDING_REASON = "check not built yet in this session (work in progress; see DESIGN.md §8 for the order)"
 props=[json.loads(l)['id'] for l in open('/verif/properties.jsonl')]
